@@ -6,7 +6,9 @@ import (
 	"encoding/json"
 	"fmt"
 	"os"
+	"reflect"
 	"strings"
+	"unicode/utf8"
 
 	"github.com/tormoder/fit"
 )
@@ -14,6 +16,38 @@ import (
 func decodeReal(b []byte) (*fit.File, error) {
 	fit.VerifResetAccumulators()
 	return fit.Decode(bytes.NewReader(b))
+}
+
+// hasInvalidUTF8: does any string reachable from v fail utf8.ValidString?
+func hasInvalidUTF8(v reflect.Value, depth int) bool {
+	if depth > 8 {
+		return false
+	}
+	switch v.Kind() {
+	case reflect.String:
+		return !utf8.ValidString(v.String())
+	case reflect.Ptr, reflect.Interface:
+		if v.IsNil() {
+			return false
+		}
+		return hasInvalidUTF8(v.Elem(), depth+1)
+	case reflect.Struct:
+		if v.Type().String() == "time.Time" {
+			return false
+		}
+		for i := 0; i < v.NumField(); i++ {
+			if hasInvalidUTF8(v.Field(i), depth+1) {
+				return true
+			}
+		}
+	case reflect.Slice, reflect.Array:
+		for i := 0; i < v.Len(); i++ {
+			if hasInvalidUTF8(v.Index(i), depth+1) {
+				return true
+			}
+		}
+	}
+	return false
 }
 
 // C07: anything Decode accepts can be re-encoded; one round trip is a fixpoint.
@@ -52,8 +86,12 @@ func runC07(c *Ctx) {
 		for k := 0; k < 3; k++ {
 			str := make([]byte, 0, n)
 			for len(str) < n {
-				if rng.Intn(3) == 0 && len(str)+2 <= n {
+				if r := rng.Intn(9); r == 0 && len(str)+2 <= n {
 					str = append(str, 0xC3, byte(0xA0+rng.Intn(30)))
+				} else if r == 1 && len(str)+3 <= n {
+					str = append(str, 0xE2, 0x82, byte(0xA0+rng.Intn(30))) // 3-byte characters
+				} else if r == 2 && len(str)+4 <= n {
+					str = append(str, 0xF0, 0x9F, 0x98, byte(0x80+rng.Intn(60))) // 4-byte characters
 				} else if rng.Intn(12) == 0 {
 					str = append(str, 0)
 				} else {
@@ -64,6 +102,24 @@ func runC07(c *Ctx) {
 		}
 		inputs = append(inputs, s.Bytes())
 		notes = append(notes, "string stream")
+	}
+	// every way a multi-byte character can straddle the size the encoder
+	// gives the field (the profile's length): widths 2..4 x every split
+	if pf := p.field(27, 0); pf != nil {
+		for w, ch := range map[int]string{2: "\u00e9", 3: "\u20ac", 4: "\U0001F600"} {
+			for j := 0; j <= w; j++ {
+				str := strings.Repeat("a", pf.L-1-j) + ch + "zz"
+				if pf.L-1-j < 0 {
+					continue
+				}
+				s := newStream(12, false)
+				s.FileId(0, 0, 4)
+				s.Def(1, 0, 27, []FieldDef{{254, 2, 0x84}, {0, byte(len(str) + 1), 7}}, nil)
+				s.Data(1, append(append([]byte{byte(j), 0}, str...), 0))
+				inputs = append(inputs, s.Bytes())
+				notes = append(notes, fmt.Sprintf("string stream: %d-byte character with %d bytes before the field's end", w, j))
+			}
+		}
 	}
 	// long message groups in which a field only appears late (a sensor paired
 	// mid-activity): the union definition must still carry it
@@ -125,7 +181,12 @@ func runC07(c *Ctx) {
 			ev, out := p.runEncode(id, cur, arch)
 			ev.Note = fmt.Sprintf("%s: Encode of generation %d (%s)", notes[i], gen-1, ev.Note)
 			if ev.Ret.Err == 1 || ev.Ret.Panic == 1 {
-				c.report(encodeFailureSig(ev), fmt.Sprintf("Encode of a decoded File fails (%s): %s%s", ev.Note, ev.Ret.ErrText, ev.Ret.PanicMsg), map[string]interface{}{"input": toInts(x), "encode": ev})
+				sig := encodeFailureSig(ev)
+				if sig == "encode-fails:invalid UTF-8 string" && !hasInvalidUTF8(reflect.ValueOf(cur), 0) {
+					// the known finding is about strings that are not UTF-8 in the decoded File; this one has none
+					sig = "encode-fails:a valid UTF-8 string is refused"
+				}
+				c.report(sig, fmt.Sprintf("Encode of a decoded File fails (%s): %s%s", ev.Note, ev.Ret.ErrText, ev.Ret.PanicMsg), map[string]interface{}{"input": toInts(x), "encode": ev})
 				break
 			}
 			calls = append(calls, ev)
